@@ -13,24 +13,43 @@ from . import ir, lanes, build
 from catalogue import configs as C
 
 CTYPE = dict((t.name, t.c) for t in C.ALL)
+UTYPE = {8: 'uint8_t', 16: 'uint16_t', 32: 'uint32_t', 64: 'uint64_t'}
 ARGN = {'b': ['a', 'b', 'c', 'd'], 'm': ['m', 'n'], 's': ['s', 't'], 'u': ['u', 'v'], 'p': ['p', 'q'], 'P': ['o', 'r']}
 
 
-def variants_of(op, ty):
+def variants_of(op, ty, cfg=None, tier='quick'):
     if op.variants is None:
         return [{}]
+    import inspect
+    nargs = len(inspect.signature(op.variants).parameters)
+    vs = op.variants(ty) if nargs == 1 else (op.variants(ty, cfg) if nargs == 2 else op.variants(ty, cfg, tier))
     out = []
-    for v in op.variants(ty):
-        if v not in out:
+    seen = set()
+    for v in vs:
+        k = repr(sorted(v.items()))
+        if k not in seen:
+            seen.add(k)
             out.append(v)
     return out
+
+
+def _vstr(x):
+    if isinstance(x, (list, tuple)):
+        return 'x'.join(str(e) for e in x)
+    return str(x)
 
 
 def wname(op, ty, var):
     s = 'k_%s_%s' % (op.name, ty.name)
     for k in sorted(var):
-        s += '_%s%s' % (k, var[k])
+        s += '_%s%s' % (k, _vstr(var[k]))
+    if len(s) > 120:
+        s = s[:80] + '_h' + hashlib.sha1(s.encode()).hexdigest()[:16]
     return s
+
+
+def fmt_var(var):
+    return dict((k, (', '.join(str(e) for e in v) if isinstance(v, (list, tuple)) else v)) for k, v in var.items())
 
 
 def wrapper_line(op, ty, var):
@@ -58,10 +77,10 @@ def wrapper_line(op, ty, var):
         elif k == 'P':
             decl.append('%s* %s' % (op.ptr_type(ty) if hasattr(op, 'ptr_type') and op.ptr_type else ct, nm))
     if op.ret == 'void':
-        expr = op.expr.format(T=ct, TN=ty.name, **var)
+        expr = op.expr.format(T=ct, TN=ty.name, U=UTYPE[ty.bits], **fmt_var(var))
         return 'extern "C" void %s(%s) { %s %s; }' % (wname(op, ty, var), ', '.join(decl), ' '.join(body), expr), names
     rt = {'b': 'R_<%s>' % ct, 'm': 'Q_<%s>' % ct, 's': ct, 'bool': 'bool', 'u64': 'uint64_t', 'int': 'int', 'size': 'size_t'}.get(op.ret) or op.ret.format(T=ct)
-    expr = op.expr.format(T=ct, TN=ty.name, **var)
+    expr = op.expr.format(T=ct, TN=ty.name, U=UTYPE[ty.bits], **fmt_var(var))
     return 'extern "C" %s %s(%s) { %s return %s; }' % (rt, wname(op, ty, var), ', '.join(decl), ' '.join(body), expr), names
 
 
@@ -168,6 +187,9 @@ def analyse_wrapper(mod, cfg, fn, op, ty, var, names):
                 in_mem['arg:' + nm] = (op.mem_bits(ty) if getattr(op, 'mem_bits', None) else ty.bits)
         ev = lanes.Eval(mod, fn, args, in_mem)
         ev.run()
+    except lanes.AssertsFalse as e:
+        res.update(status='rejected', why=str(e))
+        return res
     except lanes.NotStraightLine as e:
         res.update(status='undecided', why='control flow: %s' % e)
         return res
@@ -273,10 +295,26 @@ def run_tu(job):
                 out.append({'op': o.name, 'ty': t.name, 'var': v, 'cfg': cfgname, 'status': 'rejected', 'why': bad[wname(o, t, v)][:200]})
         if not good:
             return out
-        text, meta = make_tu(cfg, good)
-        ll, err = build.compile_tu(text, cfg.flags)
-        if ll is None:
-            return out + [{'cfg': cfgname, 'status': 'broken', 'why': 'compile failed: ' + err[-800:]}]
+        # clang reports an error inside a template instantiation only once per TU, so a second wrapper that
+        # needs the same ill-formed instantiation surfaces only when the first is gone: iterate
+        for _round in range(64):
+            text, meta = make_tu(cfg, good)
+            ll, err = build.compile_tu(text, cfg.flags)
+            if ll is not None:
+                break
+            more = {}
+            if err.startswith('ATTRIBUTED:'):
+                more = json.loads(err.split('\n', 1)[0][len('ATTRIBUTED:'):])
+            if not more:
+                return out + [{'cfg': cfgname, 'status': 'broken', 'why': 'compile failed: ' + err[-800:]}]
+            for (o, t, v) in good:
+                if wname(o, t, v) in more:
+                    out.append({'op': o.name, 'ty': t.name, 'var': v, 'cfg': cfgname, 'status': 'rejected', 'why': more[wname(o, t, v)][:200]})
+            good = [(o, t, v) for (o, t, v) in good if wname(o, t, v) not in more]
+            if not good:
+                return out
+        else:
+            return out + [{'cfg': cfgname, 'status': 'broken', 'why': 'compile failed after 64 rounds of excluding rejected wrappers'}]
         mod = ir.load_ll(ll)
         for name, (o, t, v, names) in meta.items():
             fn = mod.functions.get(name)
